@@ -189,6 +189,9 @@ func (f *flattener) paramOf(e ast.Expr) *types.Var {
 	if call, ok := e.(*ast.CallExpr); ok && len(call.Args) == 1 {
 		// conversion T(p)
 		if tv, ok := f.info.Types[call.Fun]; ok && tv.IsType() {
+			if narrowing(tv.Type, f.info.TypeOf(call.Args[0])) {
+				return nil // byte(r) is not r: see truncOf
+			}
 			return f.paramOf(call.Args[0])
 		}
 	}
@@ -202,6 +205,232 @@ func (f *flattener) paramOf(e ast.Expr) *types.Var {
 	}
 	if v != nil && f.alias[v] != nil {
 		return f.alias[v]
+	}
+	return nil
+}
+
+// intBits: the width of a basic integer type (int and uint count as 64), 0 for anything else.
+func intBits(t types.Type) (bits int, unsigned bool) {
+	if t == nil {
+		return 0, false
+	}
+	b, ok := t.Underlying().(*types.Basic)
+	if !ok {
+		return 0, false
+	}
+	switch b.Kind() {
+	case types.Int8:
+		return 8, false
+	case types.Uint8:
+		return 8, true
+	case types.Int16:
+		return 16, false
+	case types.Uint16:
+		return 16, true
+	case types.Int32:
+		return 32, false
+	case types.Uint32:
+		return 32, true
+	case types.Int, types.Int64:
+		return 64, false
+	case types.Uint, types.Uint64, types.Uintptr:
+		return 64, true
+	}
+	return 0, false
+}
+
+// narrowing: a conversion from an integer type to a narrower one drops the high bits.
+func narrowing(to, from types.Type) bool {
+	tb, _ := intBits(to)
+	fb, _ := intBits(from)
+	return tb != 0 && fb != 0 && tb < fb
+}
+
+// maxRune bounds the values a truncated decision parameter is expanded over: the parameter of a transition function is a
+// decoded character, 0..0x10FFFF (what the reader hands over; values outside are not modelled for truncating conversions).
+const truncUniverse = 0x10FFFF
+
+// truncOf: e is T(p) with T an unsigned integer type narrower than p's type; returns p and the modulus 1<<bits.
+func (f *flattener) truncOf(e ast.Expr) (*types.Var, int64) {
+	call, ok := ast.Unparen(e).(*ast.CallExpr)
+	if !ok || len(call.Args) != 1 {
+		return nil, 0
+	}
+	tv, ok := f.info.Types[call.Fun]
+	if !ok || !tv.IsType() || !narrowing(tv.Type, f.info.TypeOf(call.Args[0])) {
+		return nil, 0
+	}
+	bits, unsigned := intBits(tv.Type)
+	if !unsigned || bits > 16 {
+		return nil, 0
+	}
+	p := f.paramOf(call.Args[0])
+	if p == nil {
+		return nil, 0
+	}
+	return p, int64(1) << bits
+}
+
+// periodic: the values x of 0..truncUniverse with x mod m in set (set within 0..m-1).
+func periodic(set []ivl, m int64) []ivl {
+	var out []ivl
+	set = normI(set)
+	for base := int64(0); base <= truncUniverse; base += m {
+		for _, iv := range set {
+			lo, hi := iv.lo, iv.hi
+			if lo < 0 {
+				lo = 0
+			}
+			if hi > m-1 {
+				hi = m - 1
+			}
+			if lo > hi {
+				continue
+			}
+			a, b := base+lo, base+hi
+			if a > truncUniverse {
+				break
+			}
+			if b > truncUniverse {
+				b = truncUniverse
+			}
+			out = append(out, ivl{a, b})
+		}
+	}
+	return normI(out)
+}
+
+// boolTables: package-level tables of booleans with a statically known content (filled when the packages are loaded):
+// the set of indices holding true, and the table's length.
+type boolTable struct {
+	trues []ivl
+	n     int64
+}
+
+var boolTables = map[*types.Var]*boolTable{}
+
+// evalBoolTable understands `[N]bool{...}` / `[]bool{...}` literals with constant keys, and the immediately invoked
+// initialiser `func() (t [N]bool) { for _, c := range "<constant>" { t[c] = true }; return t }()`.
+func evalBoolTable(info *types.Info, e ast.Expr) *boolTable {
+	e = ast.Unparen(e)
+	switch v := e.(type) {
+	case *ast.CompositeLit:
+		t := info.TypeOf(v)
+		if t == nil {
+			return nil
+		}
+		var n int64 = -1
+		switch u := t.Underlying().(type) {
+		case *types.Array:
+			if b, ok := u.Elem().Underlying().(*types.Basic); !ok || b.Kind() != types.Bool {
+				return nil
+			}
+			n = u.Len()
+		case *types.Slice:
+			if b, ok := u.Elem().Underlying().(*types.Basic); !ok || b.Kind() != types.Bool {
+				return nil
+			}
+		default:
+			return nil
+		}
+		var trues []ivl
+		next := int64(0)
+		for _, el := range v.Elts {
+			val := el
+			if kv, ok := el.(*ast.KeyValueExpr); ok {
+				ktv, ok := info.Types[kv.Key]
+				if !ok || ktv.Value == nil {
+					return nil
+				}
+				k, ok := constant.Int64Val(constant.ToInt(ktv.Value))
+				if !ok {
+					return nil
+				}
+				next, val = k, kv.Value
+			}
+			vtv, ok := info.Types[val]
+			if !ok || vtv.Value == nil || vtv.Value.Kind() != constant.Bool {
+				return nil
+			}
+			if constant.BoolVal(vtv.Value) {
+				trues = append(trues, ivl{next, next})
+			}
+			next++
+		}
+		if n < 0 {
+			n = next
+			for _, iv := range trues {
+				if iv.hi+1 > n {
+					n = iv.hi + 1
+				}
+			}
+		}
+		return &boolTable{trues: normI(trues), n: n}
+	case *ast.CallExpr:
+		fl, ok := ast.Unparen(v.Fun).(*ast.FuncLit)
+		if !ok || len(v.Args) != 0 || fl.Type.Results == nil || len(fl.Type.Results.List) != 1 || len(fl.Type.Results.List[0].Names) != 1 {
+			return nil
+		}
+		res := info.Defs[fl.Type.Results.List[0].Names[0]]
+		if res == nil {
+			return nil
+		}
+		arr, ok := res.Type().Underlying().(*types.Array)
+		if !ok {
+			return nil
+		}
+		if b, ok := arr.Elem().Underlying().(*types.Basic); !ok || b.Kind() != types.Bool {
+			return nil
+		}
+		var trues []ivl
+		for i, st := range fl.Body.List {
+			switch x := st.(type) {
+			case *ast.RangeStmt:
+				// for _, c := range "<constant string>" { t[c] = true }
+				tv, ok := info.Types[x.X]
+				if !ok || tv.Value == nil || tv.Value.Kind() != constant.String || x.Value == nil || len(x.Body.List) != 1 {
+					return nil
+				}
+				as, ok := x.Body.List[0].(*ast.AssignStmt)
+				if !ok || as.Tok != token.ASSIGN || len(as.Lhs) != 1 || len(as.Rhs) != 1 {
+					return nil
+				}
+				ix, ok := as.Lhs[0].(*ast.IndexExpr)
+				if !ok {
+					return nil
+				}
+				tid, ok1 := ast.Unparen(ix.X).(*ast.Ident)
+				cid, ok2 := ast.Unparen(ix.Index).(*ast.Ident)
+				vid, ok3 := x.Value.(*ast.Ident)
+				if !ok1 || !ok2 || !ok3 || info.Uses[tid] != res || info.Uses[cid] != info.Defs[vid] {
+					return nil
+				}
+				rtv, ok := info.Types[as.Rhs[0]]
+				if !ok || rtv.Value == nil || rtv.Value.Kind() != constant.Bool || !constant.BoolVal(rtv.Value) {
+					return nil
+				}
+				for _, r := range constant.StringVal(tv.Value) {
+					if int64(r) >= arr.Len() {
+						return nil // the initialiser would panic
+					}
+					trues = append(trues, ivl{int64(r), int64(r)})
+				}
+			case *ast.ReturnStmt:
+				if i != len(fl.Body.List)-1 {
+					return nil
+				}
+				if len(x.Results) == 1 {
+					if id, ok := ast.Unparen(x.Results[0]).(*ast.Ident); !ok || info.Uses[id] != res {
+						return nil
+					}
+				} else if len(x.Results) != 0 {
+					return nil
+				}
+			default:
+				return nil
+			}
+		}
+		return &boolTable{trues: normI(trues), n: arr.Len()}
 	}
 	return nil
 }
@@ -321,6 +550,10 @@ func (f *flattener) sw(v *ast.SwitchStmt, cons pathCons, acc []ast.Stmt, next fu
 		return
 	}
 	p := f.paramOf(v.Tag)
+	mod := int64(0)
+	if p == nil {
+		p, mod = f.truncOf(v.Tag)
+	}
 	if p == nil {
 		f.fail(v.Tag.Pos(), "switch tag is not a decision parameter")
 		return
@@ -357,6 +590,9 @@ func (f *flattener) sw(v *ast.SwitchStmt, cons pathCons, acc []ast.Stmt, next fu
 				}
 				is = append(is, ivl{n, n})
 			}
+		}
+		if mod != 0 && !d.isStr {
+			is = periodic(is, mod)
 		}
 		nc := cons.clone()
 		if d.isStr {
@@ -485,6 +721,67 @@ func (f *flattener) split(cond ast.Expr, cons pathCons) (ts, fs []pathCons) {
 			return feas([]pathCons{tc}), feas([]pathCons{fc})
 		}
 	}
+	// byte(p) <op> constant: decided over the characters 0..0x10FFFF, where byte(p) = p mod 256
+	if be, ok := cond.(*ast.BinaryExpr); ok {
+		switch be.Op {
+		case token.EQL, token.NEQ, token.LSS, token.LEQ, token.GTR, token.GEQ:
+			p, m := f.truncOf(be.X)
+			cv, op := f.constOf(be.Y), be.Op
+			if p == nil {
+				p, m = f.truncOf(be.Y)
+				cv, op = f.constOf(be.X), flipOp(be.Op)
+			}
+			if p != nil && cv != nil && !cons[p].isStr {
+				if n, ok := constant.Int64Val(constant.ToInt(cv)); ok {
+					var small []ivl
+					switch op {
+					case token.EQL:
+						small = []ivl{{n, n}}
+					case token.NEQ:
+						small = append(small, ivl{0, n - 1}, ivl{n + 1, m - 1})
+					case token.LSS:
+						small = []ivl{{0, n - 1}}
+					case token.LEQ:
+						small = []ivl{{0, n}}
+					case token.GTR:
+						small = []ivl{{n + 1, m - 1}}
+					case token.GEQ:
+						small = []ivl{{n, m - 1}}
+					}
+					var keep []ivl
+					for _, iv := range small {
+						if iv.lo <= iv.hi {
+							keep = append(keep, iv)
+						}
+					}
+					tset := periodic(keep, m)
+					return f.splitBySet(cons, p, tset)
+				}
+			}
+		}
+	}
+	// table[p], table[T(p)], table[byte(p)] for a package-level table of booleans with a known content
+	if ix, ok := cond.(*ast.IndexExpr); ok {
+		if id, ok := ast.Unparen(ix.X).(*ast.Ident); ok {
+			if tv, _ := f.info.Uses[id].(*types.Var); tv != nil && boolTables[tv] != nil {
+				tb := boolTables[tv]
+				if p := f.paramOf(ix.Index); p != nil && !cons[p].isStr {
+					// every value that can arrive here must be inside the table (else the lookup panics)
+					inside := cons[p].intersectInts([]ivl{{0, tb.n - 1}})
+					outside := cons[p].intersectInts(complementInts([]ivl{{0, tb.n - 1}}))
+					if !outside.empty() {
+						f.fail(cond.Pos(), "table lookup %s can be out of range for %s", types.ExprString(cond), p.Name())
+						return nil, nil
+					}
+					_ = inside
+					return f.splitBySet(cons, p, tb.trues)
+				}
+				if p, m := f.truncOf(ix.Index); p != nil && !cons[p].isStr && m <= tb.n {
+					return f.splitBySet(cons, p, periodic(tb.trues, m))
+				}
+			}
+		}
+	}
 	// a predicate helper of the same package applied to a parameter: `func isX(r rune) bool { return <condition on r> }`
 	// is the condition itself, with the helper's parameter standing for the argument
 	if call, ok := cond.(*ast.CallExpr); ok && len(call.Args) == 1 {
@@ -507,6 +804,15 @@ func (f *flattener) split(cond ast.Expr, cons pathCons) (ts, fs []pathCons) {
 	}
 	f.fail(cond.Pos(), "condition not understood: %s", types.ExprString(cond))
 	return nil, nil
+}
+
+// splitBySet splits the constraint on p into the values inside tset and the others.
+func (f *flattener) splitBySet(cons pathCons, p *types.Var, tset []ivl) (ts, fs []pathCons) {
+	d := cons[p]
+	tc, fc := cons.clone(), cons.clone()
+	tc[p] = d.intersectInts(tset)
+	fc[p] = d.intersectInts(complementInts(tset))
+	return feas([]pathCons{tc}), feas([]pathCons{fc})
 }
 
 // predicateDecls: the declarations of the module's single-parameter bool functions (filled when the packages are loaded).
